@@ -38,16 +38,46 @@ Qed.
 Lemma hget_hset_other k k' v hs : key_eqb k k' = false -> hget k (hset k' v hs) = hget k hs.
 Proof. intros H. unfold hset. simpl. rewrite H. apply hget_hdel_other; auto. Qed.
 
-Lemma read_store_header_other Os o h v σ x :
-  x <> NHeader o h -> read (store_header Os o h v σ) x = read σ x.
+(* a name that is not (a view of) header (o, h) reads the same after any change confined to that header *)
+Definition independent (x T : name) : Prop :=
+  match hdr_of T with
+  | Some oh => hdr_of x <> Some oh       (* T a header or one of its sub-fields: x is about another header, or no header *)
+  | None => x <> T
+  end.
+
+Lemma read_set_hdrs_other o h hs' σ x :
+  (forall k, key_eqb k (o, h) = false -> hget k hs' = hget k (hdrs σ)) ->
+  hdr_of x <> Some (o, h) -> read (set_hdrs hs' σ) x = read σ x.
 Proof.
-  intros Hx.
-  assert (K : forall hs', (forall k, key_eqb k (o, h) = false -> hget k hs' = hget k (hdrs σ)) ->
-              read (set_hdrs hs' σ) x = read σ x).
-  { intros hs' Hh. destruct x; simpl; auto. unfold header_val. simpl. rewrite Hh; auto.
-    unfold key_eqb. simpl. destruct (N.eqb_spec o0 o), (N.eqb_spec h0 h); subst; simpl; auto. congruence. }
-  unfold store_header. destruct v; try (apply K; intros; apply hget_hset_other; auto).
-  destruct notset; apply K; intros; [apply hget_hdel_other | apply hget_hset_other]; auto.
+  intros Hh Hx.
+  assert (K : forall o0 h0, (o0, h0) <> (o, h) -> hget (o0, h0) hs' = hget (o0, h0) (hdrs σ)).
+  { intros o0 h0 Hn. apply Hh. unfold key_eqb. simpl.
+    destruct (N.eqb_spec o0 o), (N.eqb_spec h0 h); subst; simpl; auto. congruence. }
+  destruct x; simpl in *; auto.
+  - unfold header_val. simpl. rewrite K; auto. congruence.
+  - unfold field_val, hdr_text. simpl. rewrite K; auto. congruence.
+Qed.
+
+Lemma read_store_header_other Os o h v σ x :
+  hdr_of x <> Some (o, h) -> read (store_header Os o h v σ) x = read σ x.
+Proof.
+  intros Hx. unfold store_header.
+  destruct v as [? ?|? ?|? ns ?|? ?|? ?]; try (apply (read_set_hdrs_other o h); auto; intros; apply hget_hset_other; auto).
+  destruct ns; apply (read_set_hdrs_other o h); auto; intros; [apply hget_hdel_other | apply hget_hset_other]; auto.
+Qed.
+
+Lemma read_store_field_other Os o h k v σ x :
+  hdr_of x <> Some (o, h) -> read (store_field Os o h k v σ) x = read σ x.
+Proof.
+  intros Hx. unfold store_field. apply (read_set_hdrs_other o h); auto. intros; apply hget_hset_other; auto.
+Qed.
+
+Lemma read_unset_field_other o h k σ x :
+  hdr_of x <> Some (o, h) -> read (unset_field_of o h k σ) x = read σ x.
+Proof.
+  intros Hx. unfold unset_field_of.
+  destruct (HdrField.unset_field (hdr_text σ o h) (key_text k)); apply (read_set_hdrs_other o h); auto;
+    intros; [apply hget_hdel_other | apply hget_hset_other]; auto.
 Qed.
 
 Section Frame.
@@ -109,12 +139,12 @@ Qed.
    set_frame: `set T op= E` changes only T (re.group.N aside, when E matches). *)
 Theorem set_frame n fn T op e σ o σ' :
   wf σ -> pure e = true -> exec repaired Os P n fn (SSet T op e) σ = OK (o, σ') ->
-  forall x, x <> T -> is_group x = false -> read σ' x = read σ x.
+  forall x, independent x T -> is_group x = false -> read σ' x = read σ x.
 Proof.
   intros W Hp H x HxT Hx.
   destruct n as [|n]; [discriminate|]. simpl in H.
   destruct (all_good Os P n) as (Ge & _ & _).
-  destruct T as [k|k|ob h|j].
+  destruct T as [k|k|ob h|ob h fk|j]; unfold independent in HxT; simpl in HxT.
   - destruct (lookup k (locals σ)) as [l|] eqn:Ek; [|discriminate].
     bind_inv H as lv Hlv. destruct (valid_stmt_expr (type_of lv) e); [|discriminate].
     bind_inv H as [r σ1] H1. bind_inv H as σ2 H2. inversion H; subst.
@@ -137,7 +167,39 @@ Proof.
     bind_inv H as [r σ1] H1. bind_inv H as rv Hrv. bind_inv H as hv Hhv. inversion H; subst.
     rewrite <- (eval_frame _ _ _ _ _ _ W Hp H1 x Hx).
     apply read_store_header_other; auto.
+  - (* a sub-field: only (views of) that one header change *)
+    destruct (valid_stmt_expr TStr e); [|discriminate].
+    bind_inv H as [r σ1] H1. bind_inv H as rv Hrv. bind_inv H as hv Hhv. inversion H; subst.
+    rewrite <- (eval_frame _ _ _ _ _ _ W Hp H1 x Hx).
+    apply read_store_field_other; auto.
   - discriminate.
+Qed.
+
+Theorem set_field_frame n fn ob h k op e σ o σ' :
+  wf σ -> pure e = true -> exec repaired Os P n fn (SSet (NField ob h k) op e) σ = OK (o, σ') ->
+  (forall j, read σ' (NLocal j) = read σ (NLocal j)) /\
+  (forall g, read σ' (NGlobal g) = read σ (NGlobal g)) /\
+  (forall ob' h', (ob', h') <> (ob, h) ->
+     read σ' (NHeader ob' h') = read σ (NHeader ob' h') /\
+     forall k', read σ' (NField ob' h' k') = read σ (NField ob' h' k')).
+Proof.
+  intros W Hp H.
+  pose proof (set_frame _ _ _ _ _ _ _ _ W Hp H) as F.
+  split; [|split].
+  - intros j. apply F; [|reflexivity]. unfold independent; simpl. discriminate.
+  - intros g. apply F; [|reflexivity]. unfold independent; simpl. discriminate.
+  - intros ob' h' Hn. split; [|intros k']; (apply F; [|reflexivity]); unfold independent; simpl; congruence.
+Qed.
+
+(* unset of a header or of a sub-field: the same frame *)
+Theorem unset_frame n fn T σ o σ' :
+  exec repaired Os P n fn (SUnset T) σ = OK (o, σ') ->
+  forall x, independent x T -> read σ' x = read σ x.
+Proof.
+  intros H x HxT. destruct n as [|n]; [discriminate|]. simpl in H.
+  destruct T; try discriminate; unfold independent in HxT; simpl in HxT; inversion H; subst.
+  - apply (read_set_hdrs_other o0 h); auto. intros; apply hget_hdel_other; auto.
+  - apply read_unset_field_other; auto.
 Qed.
 
 (* ---------------------------------------------------------------------------------------
@@ -164,7 +226,8 @@ Proof.
   bind_inv H as [ls σ1] H1.
   destruct (eval_list_good _ (Ge lvar_mode) _ _ _ _ W H1) as (E1 & _ & W1 & G1).
   destruct (find_sub f P) as [sb|]; [|discriminate].
-  bind_inv H as [r σ2] H2. inversion H; subst.
+  bind_inv H as [r σ2] H2.
+  assert (σ2 = σ') by (destruct r; inversion H; auto). subst σ2.
   destruct (Gc _ _ _ _ _ W1 H2) as (E2 & G2 & _ & _).
   assert (E : ext WGlob σ σ').
   { eapply ext_trans; [eapply ext_weaken; [|exact E1] | exact E2].
